@@ -363,22 +363,24 @@ theorem item_deterministic {G V O : Type} (R : Rng G V) (t : SeedTable) (ht : t.
   simp only [fakeItem, fakeDraws, simSens, Bool.and_self, if_true, Bool.true_or]
   by_cases hc : coils = 1 <;> simp [hc]
 
-/-- an access history: any sequence of accesses `(seed, slice)` interleaved with arbitrary
-perturbations of the global stream; the state the stream is left in -/
-def runHistory {G V O : Type} (R : Rng G V) (t : SeedTable) (render : V × Option V → Nat → O) (coils : Nat) :
-    G → List ((Nat × Nat) × (G → G)) → G
+/-- an access history: any sequence of accesses — to this or to *other* dataset objects (their own coil
+count, per-sample seed, slice) — interleaved with arbitrary perturbations of the global stream; the state
+the stream is left in.  Dataset objects share nothing else (`Bridge.C12.shared_state_table_ok`). -/
+def runHistory {G V O : Type} (R : Rng G V) (t : SeedTable) (render : V × Option V → Nat → O) :
+    G → List ((Nat × Nat × Nat) × (G → G)) → G
   | g, [] => g
-  | g, ((seed, sl), perturb) :: rest =>
-    runHistory R t render coils (perturb (fakeItem R t render coils seed sl g).2) rest
+  | g, ((coils, seed, sl), perturb) :: rest =>
+    runHistory R t render (perturb (fakeItem R t render coils seed sl g).2) rest
 
-/-- **… nor on the access history**: after any two histories, from any two initial states, loading
-the same `(seed, slice)` gives the same item (same index twice, permuted orders, another identically
-constructed dataset). -/
+/-- **… nor on the access history**: after any two histories (accesses to any objects, in any order, with
+repetitions), from any two initial states, loading the same `(seed, slice)` gives the same item (same
+index twice, permuted orders, another identically constructed dataset, other datasets accessed in
+between). -/
 theorem item_history_independent {G V O : Type} (R : Rng G V) (t : SeedTable) (ht : t.allTrue = true)
     (render : V × Option V → Nat → O) (coils seed sliceNo : Nat) (g g' : G)
-    (hist hist' : List ((Nat × Nat) × (G → G))) :
-    (fakeItem R t render coils seed sliceNo (runHistory R t render coils g hist)).1 =
-      (fakeItem R t render coils seed sliceNo (runHistory R t render coils g' hist')).1 :=
+    (hist hist' : List ((Nat × Nat × Nat) × (G → G))) :
+    (fakeItem R t render coils seed sliceNo (runHistory R t render g hist)).1 =
+      (fakeItem R t render coils seed sliceNo (runHistory R t render g' hist')).1 :=
   item_deterministic R t ht render coils seed sliceNo _ _
 
 /-- regression examples: the pinned tree (seed not handed to `make_blobs`; `if seed:`) returned
